@@ -8,6 +8,155 @@ fn usage() -> ! {
 	std::process::exit(2)
 }
 
+/// how a child process ended
+enum Ended {
+	Code(i32),
+	/// killed from outside or by a resource limit: never evidence against the code
+	Killed(String),
+	/// died on its own (abort after a double panic or a stack overflow, SIGSEGV, a panic that escaped): to be attributed
+	Crashed(String),
+}
+
+fn run_child(args: &[String], trace_dir: Option<&std::path::Path>, quiet: bool, masks_on: bool) -> (Ended, String) {
+	use std::os::unix::process::ExitStatusExt;
+	use std::process::{Command, Stdio};
+	let exe = std::env::current_exe().unwrap_or_else(|_| "/verif/harness/target/debug/check".into());
+	let mut cmd = Command::new(exe);
+	cmd.args(args).arg("--inproc");
+	if let Some(d) = trace_dir {
+		cmd.env("VERIF_TRACE_DIR", d);
+	}
+	if masks_on {
+		cmd.env("VERIF_REPLAY_MASKS", "1");
+	}
+	let out_path = std::path::PathBuf::from(format!("/dev/shm/fbverif-out-{}-{}", std::process::id(), args.len()));
+	if quiet {
+		match std::fs::File::create(&out_path) {
+			Ok(f) => {
+				cmd.stdout(Stdio::from(f)).stderr(Stdio::null());
+			}
+			Err(_) => {
+				cmd.stdout(Stdio::null()).stderr(Stdio::null());
+			}
+		}
+	}
+	// watchdog: a check that does not come back is inconclusive, never a violation
+	let thorough = args.windows(2).any(|w| w[0] == "--tier" && w[1] == "thorough") || (std::env::var("VERIF_TIER").ok().as_deref() == Some("thorough") && !args.iter().any(|a| a == "--tier"));
+	let limit = std::env::var("VERIF_WATCHDOG_SECS").ok().and_then(|s| s.parse::<u64>().ok()).unwrap_or(if thorough { 12 * 3600 } else { 1800 });
+	let mut child = match cmd.spawn() {
+		Ok(c) => c,
+		Err(e) => return (Ended::Killed(format!("cannot start the check process: {e}")), String::new()),
+	};
+	let started = std::time::Instant::now();
+	let status = loop {
+		match child.try_wait() {
+			Ok(Some(st)) => break st,
+			Ok(None) => {
+				if started.elapsed().as_secs() > limit {
+					let _ = child.kill();
+					let _ = child.wait();
+					let _ = std::fs::remove_file(&out_path);
+					return (Ended::Killed(format!("watchdog: no result after {limit} s")), String::new());
+				}
+				std::thread::sleep(std::time::Duration::from_millis(if started.elapsed().as_secs() < 2 { 5 } else { 100 }));
+			}
+			Err(e) => return (Ended::Killed(format!("waiting for the check process failed: {e}")), String::new()),
+		}
+	};
+	let stdout = if quiet { std::fs::read_to_string(&out_path).unwrap_or_default() } else { String::new() };
+	let _ = std::fs::remove_file(&out_path);
+	let ended = match (status.code(), status.signal()) {
+		(Some(c @ 0..=2), _) => Ended::Code(c),
+		(Some(c), _) => Ended::Crashed(format!("exit code {c}")),
+		(None, Some(s @ (9 | 15 | 24 | 25))) => Ended::Killed(format!("signal {s}")),
+		(None, Some(s)) => Ended::Crashed(format!("signal {s}")),
+		(None, None) => Ended::Killed("unknown status".into()),
+	};
+	(ended, stdout)
+}
+
+/// Runs the check in a child process.  When the child dies on its own (the code under test aborted the process: a panic
+/// while unwinding, a stack overflow, ...) the run is repeated with case tracing, every case that was in flight is replayed
+/// in a process of its own, and those that kill it again are reported as violations with a replay file.
+fn supervise(id: &str, args: &[String]) -> i32 {
+	let (ended, _) = run_child(args, None, false, false);
+	let why = match ended {
+		Ended::Code(c) => return c,
+		Ended::Killed(why) => {
+			println!("INCONCLUSIVE: the check process was killed ({why})");
+			return 2;
+		}
+		Ended::Crashed(why) => why,
+	};
+	if let Some(k) = args.iter().position(|a| a == "--replay") {
+		// a single saved case: the file given is the replay
+		println!("VIOLATION property={id} replay={}", args.get(k + 1).cloned().unwrap_or_default());
+		println!("  the process replaying this case died ({why})");
+		return 1;
+	}
+	println!("note: the check process died ({why}); running it again with case tracing to find the case that kills it");
+	let dir = std::path::PathBuf::from(format!("/dev/shm/fbverif-trace-{}", std::process::id()));
+	let _ = std::fs::remove_dir_all(&dir);
+	let _ = std::fs::create_dir_all(&dir);
+	let (ended2, out2) = run_child(args, Some(&dir), true, false);
+	let rc = match ended2 {
+		Ended::Code(c) => {
+			// did not die again: what this run says counts; a clean pass after a crash is inconclusive
+			print!("{out2}");
+			if c == 0 {
+				println!("INCONCLUSIVE: the check process died once ({why}) and passed when repeated");
+				2
+			} else {
+				c
+			}
+		}
+		Ended::Killed(w) => {
+			println!("INCONCLUSIVE: the repeated check process was killed ({w})");
+			2
+		}
+		Ended::Crashed(why2) => {
+			let mut files: Vec<_> = std::fs::read_dir(&dir).map(|d| d.flatten().map(|e| e.path()).collect()).unwrap_or_default();
+			files.sort();
+			let replay_dir = std::path::Path::new("/verif/replays").join(id);
+			let _ = std::fs::create_dir_all(&replay_dir);
+			let mut reported = 0;
+			for f in &files {
+				if reported >= 3 {
+					break;
+				}
+				let rargs = vec![id.to_string(), "--replay".to_string(), f.display().to_string()];
+				let (e, _) = run_child(&rargs, None, true, true);
+				let died = match e {
+					Ended::Crashed(w) => Some(w),
+					Ended::Code(1) => Some("reported as a violation when replayed".to_string()),
+					_ => None,
+				};
+				if let Some(w) = died {
+					let text = std::fs::read_to_string(f).unwrap_or_default();
+					let v: serde_json::Value = serde_json::from_str(&text).unwrap_or_default();
+					let h = fbverif::engine::fnv64(text.as_bytes());
+					let sub = v["sub"].as_str().unwrap_or("?").to_string();
+					let path = replay_dir.join(format!("fail-crash-{}-{h:016x}.json", sub.replace('/', "_")));
+					let _ = std::fs::write(&path, serde_json::to_string_pretty(&v).unwrap_or(text));
+					println!("VIOLATION property={id} replay={}", path.display());
+					println!("  sub-check {sub}: the process running this case died ({w}); nothing the code under test is given may take the process down");
+					reported += 1;
+				}
+			}
+			if reported == 0 {
+				let path = replay_dir.join("fail-crash-whole-check.json");
+				let v = serde_json::json!({ "property": id, "sub": "*", "reason": format!("the check process died ({why2}) and no single traced case reproduces it: replaying repeats the whole check"), "case": null, "args": args });
+				let _ = std::fs::write(&path, serde_json::to_string_pretty(&v).unwrap_or_default());
+				println!("VIOLATION property={id} replay={}", path.display());
+				println!("  the check process died twice ({why}; {why2}) outside a traced case (enumerated sub-checks are not traced)");
+			}
+			1
+		}
+	};
+	let _ = std::fs::remove_dir_all(&dir);
+	rc
+}
+
 fn main() {
 	// anyhow captures a backtrace per error when RUST_BACKTRACE is set: slow and serialised by a global lock
 	std::env::set_var("RUST_LIB_BACKTRACE", "0");
@@ -16,6 +165,19 @@ fn main() {
 		usage();
 	}
 	let id = args[0].clone();
+	let own_process = args.iter().any(|a| matches!(a.as_str(), "--inproc" | "--child" | "--child-one" | "--dump-hostile")) || std::env::var_os("VERIF_INPROC").is_some();
+	if !own_process {
+		// a replay of "the whole check died" repeats the whole check
+		if let Some(k) = args.iter().position(|a| a == "--replay") {
+			if let Some(v) = args.get(k + 1).and_then(|p| std::fs::read_to_string(p).ok()).and_then(|t| serde_json::from_str::<serde_json::Value>(&t).ok()) {
+				if v["sub"] == "*" {
+					let a: Vec<String> = v["args"].as_array().map(|x| x.iter().filter_map(|s| s.as_str().map(String::from)).collect()).unwrap_or_else(|| vec![id.clone()]);
+					std::process::exit(supervise(&id, &a));
+				}
+			}
+		}
+		std::process::exit(supervise(&id, &args));
+	}
 	let mut tier = match std::env::var("VERIF_TIER").ok().as_deref() {
 		Some("thorough") => Tier::Thorough,
 		_ => Tier::Quick,
@@ -38,6 +200,7 @@ fn main() {
 				replay = Some(args.get(i).cloned().unwrap_or_else(|| usage()));
 			}
 			"--strict" => strict = true,
+			"--inproc" => {}
 			"--child" => {
 				// sandboxed child of C16: --child <shard> <nshards> <start>
 				let n = |k: usize| args.get(i + k).and_then(|s| s.parse::<u64>().ok()).unwrap_or_else(|| usage());
@@ -75,7 +238,9 @@ fn main() {
 		});
 		let sub = v["sub"].as_str().unwrap_or("").to_string();
 		ctx.replay = Some((sub, v["case"].clone()));
-		ctx.strict = true;
+		// a replay runs with the known-finding masks off, except when the supervisor replays the cases that were in flight
+		// when a check process died (there a masked deviation must not be mistaken for the crash)
+		ctx.strict = std::env::var_os("VERIF_REPLAY_MASKS").is_none();
 		if !fbverif::props::run(&mut ctx) {
 			usage();
 		}
